@@ -14,7 +14,7 @@ from orquesta.utils import context as ctx_util, dictionary as dict_util, jsonify
 from contracts import specconst as st
 
 from pyvc import sym as S
-from pyvc.engine import AbstractObj, Raised, Stub, SymExc
+from pyvc.engine import _Continue, AbstractObj, Raised, Stub, SymExc
 from pyvc.framework import Unit
 
 from . import cbase
@@ -418,7 +418,10 @@ class MergeDictsGeneric(Unit):
             def loop(en, st_, env):
                 # one generic iteration: (k, v) an arbitrary item of right
                 en.assign(st_.target, (k, rval), env)
-                en.exec_block(st_.body, env)
+                try:
+                    en.exec_block(st_.body, env)
+                except _Continue:
+                    pass
 
             e.loop_handlers["merge_dicts:loop#0"] = loop
 
